@@ -332,6 +332,33 @@ def swizzleGroup (doms : Array RL) (fields : List Nat) (d : DrawSt)
     | none => nodes := []
   return (order, d)
 
+/-- maximal sub-expressions of `e` that depend on no random field -/
+def nonRandParts (Γ : Nat → FieldTy) : Expr → List Expr
+  | e@(.bin _ l r) => if Bounds.isNonRand Γ e then [e] else nonRandParts Γ l ++ nonRandParts Γ r
+  | e@(.not x) => if Bounds.isNonRand Γ e then [e] else nonRandParts Γ x
+  | e@(.psel x _ _) => if Bounds.isNonRand Γ e then [e] else nonRandParts Γ x
+  | e@(.reset x) => if Bounds.isNonRand Γ e then [e] else nonRandParts Γ x
+  | e => if Bounds.isNonRand Γ e then [e] else []
+
+def stmtExprs : Stmt → List Expr
+  | .expr e => [e]
+  | .soft e => [e]
+  | .unique es => es
+  | .nil => []
+  | .cons s r => stmtExprs s ++ stmtExprs r
+  | .ifThen c t => c :: stmtExprs t
+  | .ifElse c t f => c :: (stmtExprs t ++ stmtExprs f)
+  | .implies c b => c :: stmtExprs b
+
+/-- does bound inference, which evaluates non-random operands on Python integers, see another value
+    than the solver, which evaluates them as bit-vectors of their own width and signedness?  (the
+    region of known finding F21) -/
+def pyDiverges (Γ : Nat → FieldTy) (ρ : Nat → Int) (ss : List Stmt) : Bool :=
+  ss.any fun s => (stmtExprs s).any fun e => (nonRandParts Γ e).any fun p =>
+    match Bounds.pyEval ρ p with
+    | some v => v != Sem.rd (Expr.signed Γ p) (Sem.cw Γ p 0) (Sem.sval Γ ρ p 0)
+    | none => true
+
 def runCall (fields : Array Field) (tops : List Stmt) (recs : List Json) (limit : Nat)
     (implFinal : Option (Array Int)) (allF : List Nat) (boundTops : List Stmt := [])
     (draws : Option (List (Int × Int × Int)) := none) (orderPairs : List (Nat × Nat) := [])
@@ -508,7 +535,7 @@ def runCall (fields : Array Field) (tops : List Stmt) (recs : List Json) (limit 
       ("final", jList (fun (p : Nat × Int) => Json.arr #[Json.str (vn p.1), jInt p.2]) final),
       ("refFail", jList jNat refFail), ("typeFail", jList (fun i => Json.str (vn i)) typeFail),
       ("specSat", specSat), ("softRef", softRef), ("softHonoured", softHonoured),
-      ("bits", jNat bits), ("starved", Json.arr starved.toArray),
+      ("bits", jNat bits), ("starved", Json.arr starved.toArray), ("pyDiverges", Json.bool (pyDiverges Γ (envρ vals0) hardS)),
       ("cands", Json.arr candsJ.toArray), ("drawsOk", Json.bool dst.ok), ("drawsUsed", jNat drawsUsed),
       ("order", match RandSets.orderGroups rs.fields orderPairs with
         | some gs => jList (fun g => jList (fun i => Json.str (vn i)) g) gs
@@ -585,7 +612,11 @@ def handleCall (j : Json) : Except String Json := do
             | _ => none
         | _ => [])
     | none => none
-  runCall fields tops recs limit implFinal (List.range fields.size) [] draws orderPairs implBounds marks distDefsE
+  -- fields that are part of the call (a free-standing call passes a subset); default: all
+  let allF : List Nat := match getOpt j "allF" with
+    | some a => ((a.getArr?).toOption.map fun l => l.toList.filterMap fun x => x.getNat?.toOption).getD (List.range fields.size)
+    | none => List.range fields.size
+  runCall fields tops recs limit implFinal allF [] draws orderPairs implBounds marks distDefsE
 
 /-- `z.expr`: value of one expression under an environment, reference and lowered side by side -/
 def handleExpr (j : Json) : Except String Json := do
